@@ -78,6 +78,42 @@ def parse_tlc_output(path, res):
     return res
 
 
+class _CrashAgain(Exception):
+    def __init__(self, where):
+        Exception.__init__(self, where)
+        self.where = where
+
+
+def _panic_in_repo(log, repo):
+    """Name of the function of the code under test in which the driver's panicking goroutine died, or None."""
+    lines = log.splitlines()
+    start = None
+    for i, l in enumerate(lines):
+        if l.startswith("panic:") or l.startswith("fatal error:"):
+            start = i
+            break
+    if start is None:
+        return None
+    # first goroutine dump after the panic line
+    j = start
+    while j < len(lines) and not lines[j].startswith("goroutine "):
+        j += 1
+    j += 1
+    real = os.path.realpath(repo)
+    while j + 1 < len(lines) and lines[j].strip() and not lines[j].startswith("goroutine "):
+        fn, loc = lines[j].strip(), lines[j + 1].strip()
+        j += 2
+        path = loc.split(":")[0]
+        if fn.startswith("panic(") or fn.startswith("runtime.") or "/go/src/" in path or "/libexec/" in path or fn.startswith("testing."):
+            continue
+        if fn.startswith("created by"):
+            break
+        if os.path.realpath(path).startswith(real + os.sep):
+            return fn.rsplit("(", 1)[0].split("/")[-1]
+        return None          # first non-runtime frame is the harness (or a module): not the code under test
+    return None
+
+
 class Check:
     """One run of one property's check."""
 
@@ -250,7 +286,7 @@ class Check:
                 f.write(open(extra).read())
         return hdir
 
-    def gotest(self, pkg, run, env=None, timeout=900, tag=None, args=None):
+    def gotest(self, pkg, run, env=None, timeout=900, tag=None, args=None, _retry=False):
         """Run one Go harness test; the test writes its JSON result to $VERIF_OUT.
         Returns the parsed result dict.  Build failures / crashes of the driver raise Infra."""
         hdir = self.prepare_harness()
@@ -276,7 +312,34 @@ class Check:
                 rc = -9
         wall = time.time() - t0
         if not os.path.exists(outp):
-            tail = "".join(open(logp, errors="replace").readlines()[-40:])
+            log = open(logp, errors="replace").read()
+            tail = "".join(log.splitlines(True)[-40:])
+            # The driver process died.  If it died of a Go panic raised INSIDE the code under test (first frame of the
+            # panicking goroutine that is neither the Go runtime nor the harness lies in the repository) and the same
+            # panic happens again when the same test is run a second time, this is real-code behaviour: the code took the
+            # process down on an input the specification generated.  Anything else (harness bug, OOM, timeout, a crash
+            # that does not repeat) stays an infrastructure error.
+            where = _panic_in_repo(log, REPO)
+            if where and not _retry:
+                try:
+                    self.gotest(pkg, run, env=env, timeout=timeout, tag=tag, args=args, _retry=True)
+                except _CrashAgain as again:
+                    if again.where == where:
+                        msg = [l for l in log.splitlines() if l.startswith("panic:") or l.startswith("fatal error:")]
+                        r = dict(evaluations=0, behaviours=0, distinct_nontrivial=0, samples=[], extra={},
+                                 mismatches=[dict(sig="crash:%s:%s" % (pkg, where),
+                                                  text="the code under test took the driver process down (twice, same place): %s in %s; harness %s/%s"
+                                                       % ((msg[0] if msg else "panic")[:300], where, pkg, run),
+                                                  detail=dict(log_tail=tail[-3000:]))],
+                                 _wall_s=round(wall, 1), _rc=rc, _log=logp)
+                        self.go_runs.append(dict(pkg=pkg, run=run, tag=tag or run, wall_s=round(wall, 1), evaluations=0, mismatches=1))
+                        return r
+                except Infra:
+                    pass
+                else:
+                    pass
+            if where and _retry:
+                raise _CrashAgain(where)
             raise Infra("go harness %s/%s produced no result (rc=%s)\n%s" % (pkg, run, rc, tail))
         with open(outp) as f:
             r = json.load(f)
